@@ -9,7 +9,7 @@
 Require Import ExtrOcamlBasic.
 Require Import ExtrOcamlNatInt.
 Require Import Selen.Model.Prelude Selen.Model.SparseSet Selen.Model.SetSpec.
-Require Import Selen.Model.Dom Selen.Model.Views Selen.Model.PropDefs Selen.Model.Props.Basic Selen.Model.Props.LinInt Selen.Model.Propagate Selen.Model.Search.
+Require Import Selen.Model.Dom Selen.Model.Views Selen.Model.PropDefs Selen.Model.Props.Basic Selen.Model.Props.LinInt Selen.Model.Props.Global Selen.Model.Propagate Selen.Model.Search.
 Require Import Selen.Model.LP Selen.Model.Limits.
 Extraction Language OCaml.
 Set Extraction AccessOpaque.
@@ -21,6 +21,7 @@ Extraction "selen_model.ml"
   drange dof_values cset_min cset_max vtimes vtimes_neg vminus vbnd vset vmin vmax all_fixed
   mk_add mk_sub mk_leq mk_lt mk_geq mk_gt mk_eq mk_neq_noop mk_sum
   all_zero mk_lin_eq mk_lin_le mk_lin_ne mk_lin_eq_reif mk_lin_le_reif mk_lin_ne_reif
+  mk_count mk_at_least mk_at_most mk_exactly mk_element mk_table table_okb
   fifo lcg_pick propagate prop_fuel agenda_with search enumerate minimize maximize solve
   solve_lim minimize_lim enumerate_lim never from_check
   mkLP lp_wf feasible objective check_opt check_infeasible feasible_tol q_close_rel lp_solve f64_to_Q qdot lp_nvars needs_phase1.
